@@ -23,15 +23,15 @@ Theorem sealed_cursor_reopens :
   forall (state sbytes token ctoken : Type) (ser : state -> sbytes) (deser : sbytes -> option state)
          (seal_cur : bytes * sbytes -> token) (open_cur : token -> option (bytes * sbytes))
          (seal_call : callinfo -> ctoken) (open_call : ctoken -> option callinfo)
-         (cmax : nat) (mth cid schema : bytes),
+         (cmax : nat) (mth : bytes) (info : callinfo),
   (forall s, deser (ser s) = Some s) ->
   (forall x, open_cur (seal_cur x) = Some x) ->
   (forall x, open_call (seal_call x) = Some x) ->
+  ci_method info = mth ->
   forall (c : cache) (s : state),
-  let info := {| ci_id := cid; ci_method := mth; ci_schema := schema |} in
-  cache_ok cid info c ->
-  exists c', open_request deser open_cur open_call cmax mth c (seal_cur (cid, ser s)) (seal_call info)
-             = (Some (cid, s, info), c') /\ cache_ok cid info c'.
+  cache_ok (ci_id info) info c ->
+  exists c', open_request deser open_cur open_call cmax mth c (seal_cur (ci_id info, ser s)) (seal_call info)
+             = (Some (ci_id info, s, info), c') /\ cache_ok (ci_id info) info c'.
 Proof. exact @open_request_ok. Qed.
 
 (* producers: /init folds the first turns, every continuation runs up to L more *)
@@ -42,41 +42,45 @@ Theorem http_refines_pipe_producer :
          (seal_call : callinfo -> ctoken) (open_call : ctoken -> option callinfo)
          (L : nat) (cut : list frame -> bool) (cmax : nat) (route : nat -> nat)
          (mth : bytes) (schema_of : callinfo -> bytes) (refusal : frame)
-         (vw : bytes -> frame -> list V) (cid schema : bytes),
+         (vw : bytes -> frame -> list V) (info : callinfo) (schema : bytes),
   (forall s, deser (ser s) = Some s) ->
   (forall x, open_cur (seal_cur x) = Some x) ->
   (forall x, open_call (seal_call x) = Some x) ->
-  schema_of {| ci_id := cid; ci_method := mth; ci_schema := schema |} = schema ->
+  ci_method info = mth ->
+  schema_of info = schema ->
   forall (caches : nat -> cache) (s0 : state) (pre : list frame) (ticks : list inp),
-  caches_ok cid {| ci_id := cid; ci_method := mth; ci_schema := schema |} caches ->
+  caches_ok (ci_id info) info caches ->
   resps_view vw (http_prod step ser deser seal_cur open_cur seal_call open_call L cut cmax route mth
-                   schema_of refusal cid schema caches s0 pre ticks)
+                   schema_of refusal info schema caches s0 pre ticks)
   = flat_map (vw schema) (pre ++ pipe_loop step inl s0 ticks).
 Proof. exact @http_prod_view. Qed.
 
 (* exchange: one request per input batch. Premises beyond the codecs: an
    exchange collector cannot finish (OutputCollector.Finish refuses), a cast
    refusal projects the same under the empty schema of the HTTP 400 stream, and
-   the HTTP path casts every input of this run exactly as the pipe does. *)
+   the two HTTP casts (registered schema before the tokens are opened, runtime
+   schema from the call token after) compose to the pipe's cast on every input
+   of this run. *)
 Theorem http_refines_pipe_exchange :
-  forall (state inp raw sbytes token ctoken V : Type) (step : state -> inp -> tres state)
-         (cast_p cast_h : raw -> inp + frame)
+  forall (state inp raw mid sbytes token ctoken V : Type) (step : state -> inp -> tres state)
+         (cast_p : raw -> inp + frame) (cast1 : raw -> mid + frame) (cast2 : callinfo -> mid -> inp + frame)
          (ser : state -> sbytes) (deser : sbytes -> option state)
          (seal_cur : bytes * sbytes -> token) (open_cur : token -> option (bytes * sbytes))
          (seal_call : callinfo -> ctoken) (open_call : ctoken -> option callinfo)
          (cmax : nat) (route : nat -> nat) (mth : bytes) (schema_of : callinfo -> bytes)
-         (refusal : frame) (vw : bytes -> frame -> list V) (cid schema : bytes),
+         (refusal : frame) (vw : bytes -> frame -> list V) (info : callinfo) (schema : bytes),
   (forall s, deser (ser s) = Some s) ->
   (forall x, open_cur (seal_cur x) = Some x) ->
   (forall x, open_call (seal_call x) = Some x) ->
-  schema_of {| ci_id := cid; ci_method := mth; ci_schema := schema |} = schema ->
+  ci_method info = mth ->
+  schema_of info = schema ->
   (forall s i s' o f, step s i = TOk s' o f -> f = false) ->
   (forall r e, cast_p r = inr e -> vw [] e = vw schema e) ->
   forall (caches : nat -> cache) (s0 : state) (pre : list frame) (ins : list raw),
-  (forall r, In r ins -> cast_h r = cast_p r) ->
-  caches_ok cid {| ci_id := cid; ci_method := mth; ci_schema := schema |} caches ->
-  resps_view vw (http_exch step cast_h ser deser seal_cur open_cur seal_call open_call cmax route mth
-                   schema_of refusal cid schema caches s0 pre ins)
+  (forall r, In r ins -> cast_http cast1 cast2 info r = cast_p r) ->
+  caches_ok (ci_id info) info caches ->
+  resps_view vw (http_exch step cast1 cast2 ser deser seal_cur open_cur seal_call open_call cmax route mth
+                   schema_of refusal info schema caches s0 pre ins)
   = flat_map (vw schema) (pre ++ pipe_loop step cast_p s0 ins).
 Proof. exact @http_exch_view. Qed.
 
@@ -84,31 +88,45 @@ Proof. exact @http_exch_view. Qed.
 Theorem producer_chunks_concat : forall (A : Type) (L : nat) (xs : list A), concat (chunks L xs) = xs.
 Proof. exact @concat_chunks. Qed.
 
-(* the property in decidable form, on the executable model that is compared with
+(* the cast premise of the exchange theorem holds for the repaired code on every
+   method kind (static, dynamic) and every input column (equal, castable,
+   uncastable): the runtime input schema rides the call token *)
+Theorem repaired_http_casts_like_pipe : forall i r,
+  is_producer (i_kind i) = false -> In r (raws i) ->
+  cast_http (cast_reg (i_kind i)) cast_rt (call_info false (i_kind i)) r = cast_pipe r.
+Proof. intros i r Hp Hin. exact (casts_agree false i r Hp Hin (or_introl eq_refl)). Qed.
+
+(* THE PROPERTY in decidable form, on the executable model that is compared with
    the real Server / HttpServer on every run: for every scripted stream call
-   (6 method kinds, any init logs / requested level / init failure / header,
-   any list of scripted turns, any inputs) and every HTTP configuration (L,
-   cap, cache size, routing list, compression), the pipe view equals the HTTP view.
-   FULL statement: forall i, spec_ok i (model i) = true. It is FALSE for the code
-   as it stands (next theorem); what holds is the statement under [cast_safe]:
-   the method is not a dynamic exchange, or its inputs already have the declared
-   input schema. *)
-Theorem http_refines_pipe_cast_safe : forall i, cast_safe i = true -> spec_ok i (model i) = true.
+   (6 method kinds incl. dynamic, any init logs / requested level / init failure /
+   header, any list of scripted turns, any inputs incl. castable-but-unequal and
+   uncastable ones) and every HTTP configuration (L, cap, cache size, routing
+   list, compression), the pipe view equals the HTTP view. No premise. *)
+Theorem http_refines_pipe : forall i, spec_ok i (model i) = true.
 Proof. exact model_meets_spec. Qed.
 
-(* dynamic exchange method, runtime input schema {x:int64}, client sends {x:int32}:
-   over the pipe the state sees the cast batch, over HTTP the batch as sent *)
-Theorem http_refines_pipe_dynamic_cast_refuted :
-  exists i, cast_safe i = false /\ spec_ok i (model i) = false.
-Proof. exists dyn_cast_witness. exact dyn_cast_refuted. Qed.
+(* the code before the repair (call token without the runtime input schema):
+   dynamic exchange method, runtime input schema {x:int64}; the client sends
+   {x:int32} (pipe: values 11, 23; HTTP: the state read the batch as sent) or a
+   field named y (pipe: TypeError; HTTP: the turns ran). Both witnesses are in
+   corpus/C11.jsonl and are replayed on the implementation first. *)
+Theorem http_refines_pipe_legacy_refuted :
+  exists i j, spec_ok i (legacy_model i) = false /\ spec_ok j (legacy_model j) = false /\ i_col i <> i_col j.
+Proof. exists (dyn_cast_witness CI32), (dyn_cast_witness CBadName). destruct dyn_cast_legacy_refuted as [H1 H2]. split; [exact H1|]. split; [exact H2|]. discriminate. Qed.
+
+(* ... and it was wrong only there *)
+Theorem legacy_agreed_where_cast_safe : forall i, cast_safe i = true -> spec_ok i (legacy_model i) = true.
+Proof. exact legacy_model_meets_spec_where_cast_safe. Qed.
 
 (* non-vacuity: the premises hold for the scripted state with identity codecs,
    and a concrete run is cut into several responses on several instances *)
 Example premises_satisfiable :
   (forall s : sstate, Some ((fun x => x) s) = Some s)
   /\ (forall s x s' o f, sstep false s x = TOk s' o f -> f = false)
-  /\ caches_ok cid0 {| ci_id := cid0; ci_method := str "prod"; ci_schema := out_schema |} (fun _ => []).
-Proof. split; [reflexivity|]. split; [exact sstep_exch_nofin|]. intro n. apply cache_ok_nil. Qed.
+  /\ caches_ok cid0 (call_info false MDynExch) (fun _ => [])
+  /\ ci_inschema (call_info false MDynExch) = in_schema
+  /\ cast_safe (dyn_cast_witness CI32) = false.
+Proof. split; [reflexivity|]. split; [exact sstep_exch_nofin|]. split; [intro n; apply cache_ok_nil|]. split; reflexivity. Qed.
 
 Example nonvacuous :
   let i := {| i_kind := MProdH; i_reqid := str "r"; i_loglevel := str "INFO";
@@ -116,7 +134,8 @@ Example nonvacuous :
               i_initfail := None; i_header := Some 7%Z;
               i_turns := map emit_turn [1; 2; 3; 4; 5]%Z; i_col := CI64; i_ins := [[]; []; []; []; []; []; []];
               i_L := 2; i_capevery := false; i_cmax := 0; i_route := [0; 1; 2]%nat; i_compress := true |} in
-  cast_safe i = true /\ length (o_http (model i)) = 3%nat
+  length (o_http (model i)) = 3%nat
   /\ map rs_frames (http_resps i) = chunks 2 (loop i)
-  /\ spec_ok i (model i) = true.
+  /\ spec_ok i (model i) = true
+  /\ spec_ok (dyn_cast_witness CI32) (model (dyn_cast_witness CI32)) = true.
 Proof. vm_compute. repeat split; reflexivity. Qed.
